@@ -138,7 +138,16 @@ FlagShapesQuick == <<
   Shape("c10.inj.1", FlagDesc(Com1), [BaseCfg EXCEPT !.injected = <<[k |-> "Root", v |-> <<Inj("id", "string", FALSE, TRUE, FALSE)>>]>>]),
   Shape("c10.inj.2", FlagDesc(Com1), [BaseCfg EXCEPT !.injected = <<[k |-> "Root", v |-> <<Inj("id", "string", FALSE, TRUE, FALSE), Inj("rev", "int64", TRUE, FALSE, FALSE)>>],
                                                                     [k |-> "Root.Sub", v |-> <<Inj("extra", "bool", FALSE, FALSE, TRUE)>>],
-                                                                    [k |-> "Root.Subs", v |-> <<Inj("idx", "int64", FALSE, TRUE, TRUE)>>]>>]) >>
+                                                                    [k |-> "Root.Subs", v |-> <<Inj("idx", "int64", FALSE, TRUE, TRUE)>>]>>]),
+  \* injected fields for messages WITHOUT fields (a selected one and a nested one): the placeholder stays
+  [Shape("c10.inj.empty", Desc(<<EmptyM, Msg("Root", <<Fld("Str", 1, "string"), MsgF("Nothing", 2, "Empty"), Rep(MsgF("Subs", 3, "Empty"))>>, <<>>)>>),
+         [BaseCfg EXCEPT !.types = <<"Root", "Empty">>,
+                         !.injected = <<[k |-> "Empty", v |-> <<Inj("id", "string", FALSE, TRUE, FALSE)>>],
+                                        [k |-> "Root.Nothing", v |-> <<Inj("rev", "int64", FALSE, FALSE, TRUE)>>]>>]) EXCEPT !.run = "c10.inj.empty"],
+  [Shape("c10.inj.empty.Empty", Desc(<<EmptyM, Msg("Root", <<Fld("Str", 1, "string"), MsgF("Nothing", 2, "Empty"), Rep(MsgF("Subs", 3, "Empty"))>>, <<>>)>>),
+         [BaseCfg EXCEPT !.types = <<"Root", "Empty">>,
+                         !.injected = <<[k |-> "Empty", v |-> <<Inj("id", "string", FALSE, TRUE, FALSE)>>],
+                                        [k |-> "Root.Nothing", v |-> <<Inj("rev", "int64", FALSE, FALSE, TRUE)>>]>>]) EXCEPT !.run = "c10.inj.empty", !.root = "Empty"] >>
 
 \* custom-type fields get the same flags, validators and plan modifiers (through the user's GenSchema hook)
 CustomFlagShapes == <<
